@@ -796,6 +796,11 @@ def rulePODInterval(ts: datetime, p: Time, i: Interval) -> Optional[Interval]:
         (i.t_from is None or i.t_from.hasTime) and (i.t_to is None or i.t_to.hasTime)
     ):
         return None
+    if ("forenoon" in p.POD or "morning" in p.POD or "first" in p.POD) and any(
+        t is not None and t.hour is not None and t.hour > 12 for t in (i.t_from, i.t_to)
+    ):
+        # "morgen von 14 bis 16 uhr" -> do not merge (same guard as in ruleTODPOD)
+        return None
     t_to = t_from = None
     if i.t_to is not None:
         t_to = Time(
